@@ -196,7 +196,7 @@ macro_rules! divlike {
                 assert!(err_kind() == 1);
             } else {
                 // truncating quotient / remainder: x = q*y + r, |r| < |y|, sign(r) = sign(x)
-                let (qv, rv) = match (q, r) {
+                let (qv, rv) = match (&q, &r) {
                     (Ok(Number::Fixnum(qf)), Ok(Number::Fixnum(rf))) => {
                         (qf.get_num() as i128, rf.get_num() as i128)
                     }
@@ -222,6 +222,9 @@ macro_rules! divlike {
             }
             kani::cover!(y == 0);
             kani::cover!(y < 0 && x > 0);
+            std::mem::forget(q);
+            std::mem::forget(r);
+            std::mem::forget(m);
         });
     };
 }
@@ -236,6 +239,7 @@ k!(c01_idiv_min_by_minus_one, 10, |arena| {
         Ok(r) => check_via_from(r, 1i128 << 55),
         Err(_) => assert!(false),
     }
+    std::mem::forget(r);
 });
 
 k!(c01_int_floor_div, 10, |arena| {
@@ -262,6 +266,7 @@ k!(c01_int_floor_div, 10, |arena| {
             _ => assert!(false),
         }
     }
+    std::mem::forget(d);
 });
 
 // ---- shifts ----
@@ -477,6 +482,7 @@ k!(c01_int_pow_small, 12, |arena| {
     assert!(pow_calls() == 0 || !under_model());
     kani::cover!(x == 40 && e == 6);
     kani::cover!(x == 0 && e == 0);
+    std::mem::forget(r);
 });
 
 // negative exponents: the three ISO cases, for every base and every negative exponent
@@ -514,6 +520,7 @@ k!(c01_int_pow_negative_exponent, 12, |arena| {
     kani::cover!(x == 0);
     kani::cover!(x == -1);
     kani::cover!(x == 2);
+    std::mem::forget(r);
 });
 
 // a power that overflows i64 is delegated to binary_pow with (base, exponent)
@@ -533,4 +540,5 @@ k!(c01_int_pow_overflow_delegates, 12, |arena| {
         }
         _ => assert!(false),
     }
+    std::mem::forget(r);
 });
